@@ -212,7 +212,7 @@ impl LoopSignal {
 //@ close
 
 impl<'l, Data> EventLoop<'l, Data> {
-//@ slice src/loop_logic.rs / impl EventLoop<'l, Data> / fn block_on :: after <<let mut context = Context::from_waker(&waker);>> props=C11 name=EventLoop::block_on::loop
+//@ slice src/loop_logic.rs / impl EventLoop<'l, Data> / fn block_on :: after <<let mut context = Context::from_waker(&waker);>> props=C11,C13 name=EventLoop::block_on::loop
 //@ rw R19 * <<self.signals.stop.store(>> => <<flag_store(&self.signals.stop, >>
 //@ rw R19 * <<self.signals.stop.load(Ordering::Acquire)>> => <<flag_load_at(&self.signals.stop, Ordering::Acquire, Ghost(*data))>>
 //@ before <<cb(data);>>
